@@ -159,17 +159,20 @@ def matchAt (cfg : Cfg) (bol : Bool) (s : Str) : Option (Kind × Nat) :=
       (((tagBegin cfg .comment bol s).map (Kind.comment, ·)).or
         ((tagBegin cfg .block bol s).map (Kind.block, ·))))
 
+/-- match here, else the match found further right (shifted by one) -/
+def pick (here : Option (Kind × Nat)) (later : Option (Nat × Kind × Nat)) : Option (Nat × Kind × Nat) :=
+  match here with
+  | some (k, n) => some (0, k, n)
+  | none =>
+    match later with
+    | some (o, k, n) => some (o + 1, k, n)
+    | none => none
+
 /-- The lazy `(.*?)`: smallest offset at which the alternation matches.  Result: offset, kind, match length.
 `bol`: is the current offset the start of a line. -/
 def findBegin (cfg : Cfg) : Bool → Str → Option (Nat × Kind × Nat)
   | _, [] => none
-  | bol, c :: cs =>
-    match matchAt cfg bol (c :: cs) with
-    | some (k, n) => some (0, k, n)
-    | none =>
-      match findBegin cfg (c == '\n') cs with
-      | some (o, k, n) => some (o + 1, k, n)
-      | none => none
+  | bol, c :: cs => pick (matchAt cfg bol (c :: cs)) (findBegin cfg (c == '\n') cs)
 
 /-- One application of the root rule: the data in front of the begin token, its kind, its text (this is
 `token.value`), and what is left. -/
